@@ -1561,7 +1561,7 @@ class Harness:
         self.nmut += 1
         if role == 'receiver' and 'attribute/key added' in d and '.data' not in d:
             attr = d.split(':')[0].strip('.').split('.')[-1]
-            k = f"mutation:object-attribute:{attr}"
+            k = f"mutation:receiver-attribute:{attr}"
         else:
             k = f"mutation:{key}:{role if role == 'receiver' else 'argument'}"
         ctx.corr['disagreements'] += 0 if self.static_rejected else 1
@@ -2455,7 +2455,7 @@ def run(ctx):
         if not v:
             rejected.add(f.fullname)
             why, sites, top = explain_rejection(tr, f, progs[f.id], FS)
-            ctx.fail('static:rejected:' + f.fullname,
+            ctx.fail('static:write-root-rejected:' + f.fullname,
                      f"the verified write-root checker rejects {f.fullname}: " + '; '.join(why + top)[:400],
                      {'function': f.fullname, 'file': os.path.relpath(tr.modules[f.module].__file__, REPO), 'line': f.node.lineno,
                       'effect_program': [list(map(str, s)) for s in progs[f.id]], 'write_sites': sites, 'unclassifiable': top,
@@ -2521,7 +2521,7 @@ def oracle(ctx, tr, rejected):
         # a function newly rejected by the analyser: directed, intensified search for a concrete failing call
         from lib.core import load_known
         known = load_known(ctx.prop)
-        fresh_rej = sorted(f for f in rejected if ('static:rejected:' + f) not in known)
+        fresh_rej = sorted(f for f in rejected if ('static:write-root-rejected:' + f) not in known)
         if fresh_rej:
             with ctx.timed('harness:intensified'):
                 H.intensify(fresh_rej, H.reached, ctx.n(12000, 60000))
